@@ -245,3 +245,33 @@ def r20_e(ctx):
             rr.fail(Finding('R20.e', 'utils', fd.qual, 'Buffer.%s range' % name, 'Buffer.%s does not compare the %d..len(s) '
                             'items next to the cursor with s' % (name, 0), line=fd.node.lineno))
     return rr
+
+
+def r20_f(ctx):
+    """num_forward_until answers with a count of items"""
+    m = model(ctx)
+    rr = RuleResult('R20.f', 'num_forward_until returns the number of items between the cursor and the first item that '
+                    'satisfies the condition: an iteration count of a scan that advances one item per iteration (or the '
+                    'cursor displacement of that scan) -- not a length of joined text, which counts characters on a '
+                    'token buffer', floor=1)
+    fd = _fd(m, 'num_forward_until')
+    exits, raises = m.solve('num_forward_until', ('other',))
+    if not exits:
+        raise AnalysisError('Buffer.num_forward_until has no normal exit')
+    seen = set()
+    for e in exits:
+        k = repr(e.ret)
+        if k in seen:
+            continue
+        seen.add(k)
+        ok = e.ret[0] == 'aff' and all(str(sym).startswith('k@') or sym == 1 for sym, _c in getattr(e.ret[1], 't', ())) \
+            if e.ret[0] == 'aff' else False
+        if e.ret[0] == 'aff' and not getattr(e.ret[1], 't', ()):
+            ok = e.ret[1].c == 0        # the constant 0 (nothing to skip)
+        rr.ob(ok, {'method': 'num_forward_until', 'returns': repr(e.ret)[:60]})
+        if not ok:
+            rr.fail(Finding('R20.f', 'utils', fd.qual, 'Buffer.num_forward_until returns %s' % (repr(e.ret)[:50],),
+                            'the value returned by num_forward_until is not the number of items the scan passed over (%s): '
+                            'on a buffer of multi-character tokens a text length over-counts, and callers that move by the '
+                            'result overshoot' % (repr(e.ret)[:50],), line=fd.node.lineno))
+    return rr
